@@ -160,7 +160,7 @@ C05 = Prop(
          "formatted record by value and consume it. Non-trivial: at least one statement. " \
                 "Item kind x: a value whose inserter puts the statement's string stream into the failed state (nothing is appended afterwards, callables are still evaluated); overlapping statements (a statement evaluated inside an item of another one).",
     harness=HARNESS, search=lambda dis, rng: rng.shuffle(gen_log("C05", "thorough", rng))[:40000],
-    theorem_hint="NitroVerif.Props.C05.{statement_spec,run_spec,exactly_once,nothing_when_disabled,form_irrelevant,not_not}",
+    theorem_hint="NitroVerif.Props.C05.{statement_spec,run_spec,exactly_once,nothing_when_disabled,form_irrelevant,window_filter,inverted_window_rejects_everything,not_not}",
     level_text="Lean 4: the operational model of smart_stream (filter evaluated once at construction, ownership of record and "
                "buffer moving along the << chain, only the last owner logging, destruction order) is proved equal to the "
                "specification for every statement in every syntactic form and every history: nothing when disabled, else "
